@@ -186,7 +186,7 @@ func (c call) hasFOpts() bool {
 	}
 	return false
 }
-func (c call) hasNOpts() bool { return c.Code == 12 || c.Code == 13 }
+func (c call) hasNOpts() bool  { return c.Code == 12 || c.Code == 13 }
 func (c call) hasBounds() bool { return c.Code == 7 || c.Code == 12 }
 
 type body struct {
@@ -207,6 +207,8 @@ type observed struct {
 	Data     []el
 	Panicked bool
 	ErrText  string
+	// Texts: for every returned element, the number of the text it carries (see contentTexts)
+	Texts []int64
 	// ContentOK: every returned element carries the text the server sent for it
 	ContentOK bool
 }
@@ -232,10 +234,21 @@ func xmlEsc(t string) string {
 // contentOK is cleared when a returned element does not carry the text the server sent for it
 var contentOK = true
 
+// lastTexts: for every element re-read by the last view, the number of its text in
+// contentTexts (-1: not one of them), in the order of the returned elements
+var lastTexts []int64
+
 func chk(kind, id int64, text string) {
 	if text != textOf(kind%10, id) {
 		contentOK = false
 	}
+	idx := int64(-1)
+	for i, t := range contentTexts {
+		if t == text {
+			idx = int64(i)
+		}
+	}
+	lastTexts = append(lastTexts, idx)
 }
 
 func elXML(e el) string {
@@ -346,7 +359,7 @@ func errClass(err error) int64 {
 // lastView re-reads the result of the most recent run
 var lastView func() (bool, []el)
 
-func run(ctx context.Context, ds *osmapi.Datasource, c call) (hasData bool, data []el, err error, panicked bool) {
+func run(ctx context.Context, ds *osmapi.Datasource, pkgLevel bool, c call) (hasData bool, data []el, err error, panicked bool) {
 	defer func() {
 		if r := recover(); r != nil {
 			panicked = true
@@ -374,6 +387,7 @@ func run(ctx context.Context, ds *osmapi.Datasource, c call) (hasData bool, data
 	set := func(e error, v func() (bool, []el)) {
 		err = e
 		lastView = v
+		lastTexts = nil
 		hasData, data = v()
 	}
 	node := func(n *osm.Node, e error) {
@@ -452,123 +466,246 @@ func run(ctx context.Context, ds *osmapi.Datasource, c call) (hasData bool, data
 		})
 	}
 	ids := c.IDs
-	switch c.Code {
-	case 0:
-		switch c.Elem {
+	if pkgLevel {
+		// the package-level functions (they delegate to osmapi.DefaultDatasource, which the
+		// caller has configured)
+		switch c.Code {
 		case 0:
-			node(ds.Node(ctx, osm.NodeID(c.ID), fo...))
+			switch c.Elem {
+			case 0:
+				node(osmapi.Node(ctx, osm.NodeID(c.ID), fo...))
+			case 1:
+				way(osmapi.Way(ctx, osm.WayID(c.ID), fo...))
+			case 2:
+				rel(osmapi.Relation(ctx, osm.RelationID(c.ID), fo...))
+			}
 		case 1:
-			way(ds.Way(ctx, osm.WayID(c.ID), fo...))
+			switch c.Elem {
+			case 0:
+				l := make([]osm.NodeID, len(ids))
+				for i, x := range ids {
+					l[i] = osm.NodeID(x)
+				}
+				nodes(osmapi.Nodes(ctx, l, fo...))
+			case 1:
+				l := make([]osm.WayID, len(ids))
+				for i, x := range ids {
+					l[i] = osm.WayID(x)
+				}
+				ways(osmapi.Ways(ctx, l, fo...))
+			case 2:
+				l := make([]osm.RelationID, len(ids))
+				for i, x := range ids {
+					l[i] = osm.RelationID(x)
+				}
+				rels(osmapi.Relations(ctx, l, fo...))
+			}
 		case 2:
-			rel(ds.Relation(ctx, osm.RelationID(c.ID), fo...))
+			switch c.Elem {
+			case 0:
+				node(osmapi.NodeVersion(ctx, osm.NodeID(c.ID), int(c.V)))
+			case 1:
+				way(osmapi.WayVersion(ctx, osm.WayID(c.ID), int(c.V)))
+			case 2:
+				rel(osmapi.RelationVersion(ctx, osm.RelationID(c.ID), int(c.V)))
+			}
+		case 3:
+			switch c.Elem {
+			case 0:
+				nodes(osmapi.NodeHistory(ctx, osm.NodeID(c.ID)))
+			case 1:
+				ways(osmapi.WayHistory(ctx, osm.WayID(c.ID)))
+			case 2:
+				rels(osmapi.RelationHistory(ctx, osm.RelationID(c.ID)))
+			}
+		case 4:
+			ways(osmapi.NodeWays(ctx, osm.NodeID(c.ID), fo...))
+		case 5:
+			switch c.Elem {
+			case 0:
+				rels(osmapi.NodeRelations(ctx, osm.NodeID(c.ID), fo...))
+			case 1:
+				rels(osmapi.WayRelations(ctx, osm.WayID(c.ID), fo...))
+			case 2:
+				rels(osmapi.RelationRelations(ctx, osm.RelationID(c.ID), fo...))
+			}
+		case 6:
+			if c.Elem == 0 {
+				whole(osmapi.WayFull(ctx, osm.WayID(c.ID), fo...))
+			} else {
+				whole(osmapi.RelationFull(ctx, osm.RelationID(c.ID), fo...))
+			}
+		case 7:
+			whole(osmapi.Map(ctx, bounds, fo...))
+		case 8, 9:
+			var cs *osm.Changeset
+			var e error
+			if c.Code == 8 {
+				cs, e = osmapi.Changeset(ctx, osm.ChangesetID(c.ID))
+			} else {
+				cs, e = osmapi.ChangesetWithDiscussion(ctx, osm.ChangesetID(c.ID))
+			}
+			set(e, func() (bool, []el) {
+				if cs == nil {
+					return false, nil
+				}
+				chk(4, int64(cs.ID), cs.User)
+				return true, []el{{4, int64(cs.ID)}}
+			})
+		case 10:
+			ch, e := osmapi.ChangesetDownload(ctx, osm.ChangesetID(c.ID))
+			set(e, func() (bool, []el) {
+				if ch == nil {
+					return false, nil
+				}
+				var d []el
+				d = append(d, osmEls(ch.Create, 10)...)
+				d = append(d, osmEls(ch.Modify, 20)...)
+				d = append(d, osmEls(ch.Delete, 30)...)
+				return true, d
+			})
+		case 11:
+			n, e := osmapi.Note(ctx, osm.NoteID(c.ID))
+			set(e, func() (bool, []el) {
+				if n == nil {
+					return false, nil
+				}
+				chk(5, int64(n.ID), noteText(n))
+				return true, []el{{5, int64(n.ID)}}
+			})
+		case 12:
+			notes(osmapi.Notes(ctx, bounds, no...))
+		case 13:
+			notes(osmapi.NotesSearch(ctx, c.Q, no...))
+		case 14:
+			u, e := osmapi.User(ctx, osm.UserID(c.ID))
+			set(e, func() (bool, []el) {
+				if u == nil {
+					return false, nil
+				}
+				chk(6, int64(u.ID), u.Name)
+				return true, []el{{6, int64(u.ID)}}
+			})
 		}
-	case 1:
-		switch c.Elem {
+	} else {
+		switch c.Code {
 		case 0:
-			l := make([]osm.NodeID, len(ids))
-			for i, x := range ids {
-				l[i] = osm.NodeID(x)
+			switch c.Elem {
+			case 0:
+				node(ds.Node(ctx, osm.NodeID(c.ID), fo...))
+			case 1:
+				way(ds.Way(ctx, osm.WayID(c.ID), fo...))
+			case 2:
+				rel(ds.Relation(ctx, osm.RelationID(c.ID), fo...))
 			}
-			nodes(ds.Nodes(ctx, l, fo...))
 		case 1:
-			l := make([]osm.WayID, len(ids))
-			for i, x := range ids {
-				l[i] = osm.WayID(x)
+			switch c.Elem {
+			case 0:
+				l := make([]osm.NodeID, len(ids))
+				for i, x := range ids {
+					l[i] = osm.NodeID(x)
+				}
+				nodes(ds.Nodes(ctx, l, fo...))
+			case 1:
+				l := make([]osm.WayID, len(ids))
+				for i, x := range ids {
+					l[i] = osm.WayID(x)
+				}
+				ways(ds.Ways(ctx, l, fo...))
+			case 2:
+				l := make([]osm.RelationID, len(ids))
+				for i, x := range ids {
+					l[i] = osm.RelationID(x)
+				}
+				rels(ds.Relations(ctx, l, fo...))
 			}
-			ways(ds.Ways(ctx, l, fo...))
 		case 2:
-			l := make([]osm.RelationID, len(ids))
-			for i, x := range ids {
-				l[i] = osm.RelationID(x)
+			switch c.Elem {
+			case 0:
+				node(ds.NodeVersion(ctx, osm.NodeID(c.ID), int(c.V)))
+			case 1:
+				way(ds.WayVersion(ctx, osm.WayID(c.ID), int(c.V)))
+			case 2:
+				rel(ds.RelationVersion(ctx, osm.RelationID(c.ID), int(c.V)))
 			}
-			rels(ds.Relations(ctx, l, fo...))
-		}
-	case 2:
-		switch c.Elem {
-		case 0:
-			node(ds.NodeVersion(ctx, osm.NodeID(c.ID), int(c.V)))
-		case 1:
-			way(ds.WayVersion(ctx, osm.WayID(c.ID), int(c.V)))
-		case 2:
-			rel(ds.RelationVersion(ctx, osm.RelationID(c.ID), int(c.V)))
-		}
-	case 3:
-		switch c.Elem {
-		case 0:
-			nodes(ds.NodeHistory(ctx, osm.NodeID(c.ID)))
-		case 1:
-			ways(ds.WayHistory(ctx, osm.WayID(c.ID)))
-		case 2:
-			rels(ds.RelationHistory(ctx, osm.RelationID(c.ID)))
-		}
-	case 4:
-		ways(ds.NodeWays(ctx, osm.NodeID(c.ID), fo...))
-	case 5:
-		switch c.Elem {
-		case 0:
-			rels(ds.NodeRelations(ctx, osm.NodeID(c.ID), fo...))
-		case 1:
-			rels(ds.WayRelations(ctx, osm.WayID(c.ID), fo...))
-		case 2:
-			rels(ds.RelationRelations(ctx, osm.RelationID(c.ID), fo...))
-		}
-	case 6:
-		if c.Elem == 0 {
-			whole(ds.WayFull(ctx, osm.WayID(c.ID), fo...))
-		} else {
-			whole(ds.RelationFull(ctx, osm.RelationID(c.ID), fo...))
-		}
-	case 7:
-		whole(ds.Map(ctx, bounds, fo...))
-	case 8, 9:
-		var cs *osm.Changeset
-		var e error
-		if c.Code == 8 {
-			cs, e = ds.Changeset(ctx, osm.ChangesetID(c.ID))
-		} else {
-			cs, e = ds.ChangesetWithDiscussion(ctx, osm.ChangesetID(c.ID))
-		}
-		set(e, func() (bool, []el) {
-			if cs == nil {
-				return false, nil
+		case 3:
+			switch c.Elem {
+			case 0:
+				nodes(ds.NodeHistory(ctx, osm.NodeID(c.ID)))
+			case 1:
+				ways(ds.WayHistory(ctx, osm.WayID(c.ID)))
+			case 2:
+				rels(ds.RelationHistory(ctx, osm.RelationID(c.ID)))
 			}
-			chk(4, int64(cs.ID), cs.User)
-			return true, []el{{4, int64(cs.ID)}}
-		})
-	case 10:
-		ch, e := ds.ChangesetDownload(ctx, osm.ChangesetID(c.ID))
-		set(e, func() (bool, []el) {
-			if ch == nil {
-				return false, nil
+		case 4:
+			ways(ds.NodeWays(ctx, osm.NodeID(c.ID), fo...))
+		case 5:
+			switch c.Elem {
+			case 0:
+				rels(ds.NodeRelations(ctx, osm.NodeID(c.ID), fo...))
+			case 1:
+				rels(ds.WayRelations(ctx, osm.WayID(c.ID), fo...))
+			case 2:
+				rels(ds.RelationRelations(ctx, osm.RelationID(c.ID), fo...))
 			}
-			var d []el
-			d = append(d, osmEls(ch.Create, 10)...)
-			d = append(d, osmEls(ch.Modify, 20)...)
-			d = append(d, osmEls(ch.Delete, 30)...)
-			return true, d
-		})
-	case 11:
-		n, e := ds.Note(ctx, osm.NoteID(c.ID))
-		set(e, func() (bool, []el) {
-			if n == nil {
-				return false, nil
+		case 6:
+			if c.Elem == 0 {
+				whole(ds.WayFull(ctx, osm.WayID(c.ID), fo...))
+			} else {
+				whole(ds.RelationFull(ctx, osm.RelationID(c.ID), fo...))
 			}
-			chk(5, int64(n.ID), noteText(n))
-			return true, []el{{5, int64(n.ID)}}
-		})
-	case 12:
-		notes(ds.Notes(ctx, bounds, no...))
-	case 13:
-		notes(ds.NotesSearch(ctx, c.Q, no...))
-	case 14:
-		u, e := ds.User(ctx, osm.UserID(c.ID))
-		set(e, func() (bool, []el) {
-			if u == nil {
-				return false, nil
+		case 7:
+			whole(ds.Map(ctx, bounds, fo...))
+		case 8, 9:
+			var cs *osm.Changeset
+			var e error
+			if c.Code == 8 {
+				cs, e = ds.Changeset(ctx, osm.ChangesetID(c.ID))
+			} else {
+				cs, e = ds.ChangesetWithDiscussion(ctx, osm.ChangesetID(c.ID))
 			}
-			chk(6, int64(u.ID), u.Name)
-			return true, []el{{6, int64(u.ID)}}
-		})
+			set(e, func() (bool, []el) {
+				if cs == nil {
+					return false, nil
+				}
+				chk(4, int64(cs.ID), cs.User)
+				return true, []el{{4, int64(cs.ID)}}
+			})
+		case 10:
+			ch, e := ds.ChangesetDownload(ctx, osm.ChangesetID(c.ID))
+			set(e, func() (bool, []el) {
+				if ch == nil {
+					return false, nil
+				}
+				var d []el
+				d = append(d, osmEls(ch.Create, 10)...)
+				d = append(d, osmEls(ch.Modify, 20)...)
+				d = append(d, osmEls(ch.Delete, 30)...)
+				return true, d
+			})
+		case 11:
+			n, e := ds.Note(ctx, osm.NoteID(c.ID))
+			set(e, func() (bool, []el) {
+				if n == nil {
+					return false, nil
+				}
+				chk(5, int64(n.ID), noteText(n))
+				return true, []el{{5, int64(n.ID)}}
+			})
+		case 12:
+			notes(ds.Notes(ctx, bounds, no...))
+		case 13:
+			notes(ds.NotesSearch(ctx, c.Q, no...))
+		case 14:
+			u, e := ds.User(ctx, osm.UserID(c.ID))
+			set(e, func() (bool, []el) {
+				if u == nil {
+					return false, nil
+				}
+				chk(6, int64(u.ID), u.Name)
+				return true, []el{{6, int64(u.ID)}}
+			})
+		}
 	}
 	return
 }
@@ -659,6 +796,7 @@ func putObserved(c *wire.Case, o observed) {
 	putEls(c, o.Data)
 	c.Bool(o.Panicked)
 	c.Bool(o.ContentOK)
+	c.Ints(o.Texts)
 }
 
 // world: everything outside the package that the call meets
@@ -673,6 +811,9 @@ type world struct {
 	// Datasource's business (its Wait would be recorded as event 3)
 	ClientNil      bool
 	DefaultLimiter bool
+	// PkgLevel: the call goes through the package-level function (osmapi.Node, ...), with the
+	// configuration put on osmapi.DefaultDatasource
+	PkgLevel bool
 }
 
 func plain(lim int) world { return world{Lim: lim, Follow: true, HopStatus: 302} }
@@ -759,11 +900,23 @@ func (e *env) perform(base string, w world, k call, status int, b body) observed
 		}()
 	}
 	contentOK = true
-	hasData, data, err, panicked := run(ctx, ds, k)
+	lastTexts = nil
+	if w.PkgLevel {
+		// the package-level entry points: the same configuration on osmapi.DefaultDatasource
+		saved := *osmapi.DefaultDatasource
+		osmapi.DefaultDatasource.BaseURL, osmapi.DefaultDatasource.Client, osmapi.DefaultDatasource.Limiter = ds.BaseURL, ds.Client, ds.Limiter
+		defer func() { *osmapi.DefaultDatasource = saved }()
+		ds = osmapi.DefaultDatasource
+	}
+	hasData, data, err, panicked := run(ctx, ds, w.PkgLevel, k)
+	texts := append([]int64(nil), lastTexts...)
+	if !hasData {
+		texts = nil
+	}
 	cancel()
 	e.rec.mu.Lock()
 	ob := observed{Events: append([]int64(nil), e.rec.events...), Requests: append([]request(nil), e.rec.requests...),
-		Class: errClass(err), NotFound: ds.NotFound(err), HasData: hasData, Data: data, Panicked: panicked, ContentOK: contentOK}
+		Class: errClass(err), NotFound: ds.NotFound(err), HasData: hasData, Data: data, Panicked: panicked, ContentOK: contentOK, Texts: texts}
 	e.rec.mu.Unlock()
 	if err != nil {
 		ob.ErrText = err.Error()
@@ -792,6 +945,7 @@ func (e *env) doSeq(class, base string, lim int, k1 call, b1 body, k2 call, b2 b
 		ob1 = e.perform(base, plain(lim), k1, 200, b1)
 		first := lastView
 		ob2 = e.perform(base, plain(lim), k2, 200, b2)
+		lastTexts = nil
 		afterHas, after = first()
 		if afterHas != ob1.HasData || !sameEls(after, ob1.Data) {
 			break // keep the deviating attempt
@@ -832,8 +986,8 @@ func describe(base string, w world, k call, status int, b body, ob observed) map
 	lim := w.Lim
 	desc := map[string]interface{}{
 		"base_url": base, "limiter": []string{"none", "ok", "fails"}[lim], "call": k.name(),
-		"context": []string{"live", "cancelled before the call", "cancelled while the request is in flight"}[w.Ctx],
-		"datasource_client_is_nil(DefaultDatasource.Client used)": w.ClientNil, "DefaultDatasource_has_its_own_limiter": w.DefaultLimiter,
+		"context":                        []string{"live", "cancelled before the call", "cancelled while the request is in flight"}[w.Ctx],
+		"through_package_level_function": w.PkgLevel, "datasource_client_is_nil(DefaultDatasource.Client used)": w.ClientNil, "DefaultDatasource_has_its_own_limiter": w.DefaultLimiter,
 		"client_follows_redirects": w.Follow, "redirect_locations": w.Hops, "redirect_status": w.HopStatus,
 		"status": status, "body": b.xml(), "body_cut_short(0 no,1 content-length,2 chunk)": b.Cut, "body_delivered_in_pieces_of_bytes(0 = at once)": b.Chunk,
 		"observed": map[string]interface{}{"events(1=wait,2=request)": ob.Events, "requests": ob.Requests, "error_class": ob.Class,
@@ -879,16 +1033,16 @@ var statuses = []int{200, 403, 404, 410, 414, 301, 400, 429, 500, 503}
 var extraStatuses = []int{201, 202, 206, 300, 304, 401, 405, 409, 412, 418, 451, 502, 504, 599}
 
 var bases = []string{
-	"",                                      // package default
+	"",                                     // package default
 	"http://api.openstreetmap.org/api/0.6", // the default, explicitly
 	"http://osm.test",                      // no path prefix
 	"http://osm.test:8080/api/0.6",
 	"http://osm.test/a/b/c",
 	"http://osm.test/api/0.6/", // trailing slash
 	"http://127.0.0.1:9/x",
-	"http://osm.test/OSM%20Mirror/api/0.6",                           // percent-escaped mount point
-	"http://proxy.test/fetch/https%3A%2F%2Fapi.osm.org/api/0.6",      // an escaped URL inside the path
-	"http://osm.test/100%25/api",                                      // an escaped percent sign
+	"http://osm.test/OSM%20Mirror/api/0.6", // percent-escaped mount point
+	"http://proxy.test/fetch/https%3A%2F%2Fapi.osm.org/api/0.6", // an escaped URL inside the path
+	"http://osm.test/100%25/api",                                // an escaped percent sign
 }
 
 var idBoundaries = []int64{0, 1, 2, 9, 10, 11, 99, 100, 101, 999999, 1000000, 2147483647, 2147483648, 4294967295, 4294967296,
@@ -1471,6 +1625,22 @@ func main() {
 			}
 		}
 	}
+	// 12b. the package-level functions (osmapi.Node, osmapi.Nodes, ...): every call x limiter mode,
+	//      configuration on DefaultDatasource
+	for _, v := range vs {
+		for lim := 0; lim < 3; lim++ {
+			if (v.code+v.elem+lim)%2 != 0 && a.Tier != "thorough" {
+				continue
+			}
+			k := randCall(rng, v.code, v.elem)
+			k.NOpts = validOnly(k.NOpts)
+			wd := plain(lim)
+			wd.PkgLevel = true
+			st := []int{200, 200, 404, 500}[rng.Intn(4)]
+			c, ob := e.doCaseW("package-level", bases[rng.Intn(5)], wd, k, st, okBody(k))
+			add(c, ob)
+		}
+	}
 	// 13. long request targets: just below / at / above the sizes servers and proxies use as limits
 	//     (the answer, not the length, decides the result); bigger ones in the thorough tier
 	{
@@ -1536,7 +1706,10 @@ func main() {
 		mk(func(ob *observed) { ob.Requests[0].URL = strings.Replace(ob.Requests[0].URL, "12345", "12346", 1) }, get, 200, 0)
 		mk(func(ob *observed) { ob.Requests[0].Method = "POST" }, get, 200, 0)
 		mk(func(ob *observed) { ob.Events[0], ob.Events[1] = ob.Events[1], ob.Events[0] }, get, 200, 1)
-		mk(func(ob *observed) { ob.Requests = append(ob.Requests, ob.Requests[0]); ob.Events = append(ob.Events, 2) }, get, 200, 0)
+		mk(func(ob *observed) {
+			ob.Requests = append(ob.Requests, ob.Requests[0])
+			ob.Events = append(ob.Events, 2)
+		}, get, 200, 0)
 		mk(func(ob *observed) { ob.Class = 1 }, get, 403, 0)
 		mk(func(ob *observed) { ob.NotFound = true }, get, 410, 0)
 		mk(func(ob *observed) { ob.NotFound = false }, get, 404, 0)
@@ -1547,7 +1720,9 @@ func main() {
 			ob.Requests[0].URL = strings.Replace(ob.Requests[0].URL, "2.000000", "2.000001", 1)
 		}, call{Code: 7, B: [4]float64{1, 2, 3, 4}}, 200, 0)
 		mk(func(ob *observed) { ob.Requests[0].URL = strings.Replace(ob.Requests[0].URL, "q=a+b", "q=a%2Bb", 1) }, call{Code: 13, Q: "a b"}, 200, 0)
-		mk(func(ob *observed) { ob.Requests[0].URL = strings.Replace(ob.Requests[0].URL, "T00:00:00Z", "T05:30:00Z", 1) },
+		mk(func(ob *observed) {
+			ob.Requests[0].URL = strings.Replace(ob.Requests[0].URL, "T00:00:00Z", "T05:30:00Z", 1)
+		},
 			call{Code: 6, Elem: 1, ID: 3, FOpts: []atOpt{{Unix: 1451606400, Zone: 19800}}}, 200, 0)
 		mk(func(ob *observed) { ob.Panicked = true }, get, 200, 0)
 		mkw := func(mut func(ob *observed), wd world, k call, st int) {
@@ -1572,7 +1747,10 @@ func main() {
 		mkw(func(ob *observed) { ob.Class = 0; ob.HasData = true; ob.Data = []el{{1, 77}} }, world{Follow: false, HopStatus: 301, Hops: []string{"http://a.test/x"}}, get, 200)
 		before := plain(1)
 		before.Ctx = 1
-		mkw(func(ob *observed) { ob.Events = append(ob.Events, 2); ob.Requests = append(ob.Requests, request{"GET", "http://osm.test/api/0.6/node/12345?"}) }, before, get, 200)
+		mkw(func(ob *observed) {
+			ob.Events = append(ob.Events, 2)
+			ob.Requests = append(ob.Requests, request{"GET", "http://osm.test/api/0.6/node/12345?"})
+		}, before, get, 200)
 		// a truncated 404 reported as an ordinary error; an earlier result that changed
 		mkb := func(mut func(ob *observed), k call, st int, b body) {
 			c, ob := e.doCaseW("", "http://osm.test/api/0.6", plain(0), k, st, b)
@@ -1582,6 +1760,7 @@ func main() {
 			w.Add(c2)
 		}
 		mkb(func(ob *observed) { ob.ContentOK = false }, get, 200, okBody(get))
+		mkb(func(ob *observed) { ob.Texts[0] = (ob.Texts[0] + 1) % 10 }, get, 200, okBody(get))
 		cutBody := okBody(get)
 		cutBody.Cut = 1
 		mkb(func(ob *observed) { ob.Class, ob.NotFound = 6, false }, get, 404, cutBody)
